@@ -68,5 +68,5 @@ func init() {
 			return ""
 		},
 	})
-	tgUnit("C08", "diff", []string{"productive", "lalr", "separators", "nullable", "prec", "prec-sep", "longrule", "longrule", "dup"}, 36, 500, 4, 8, 120, 12)
+	tgUnit("C08", "diff", []string{"productive", "lalr", "separators", "nullable", "prec", "prec-sep", "longrule", "longrule", "dup", "plain-productive"}, 36, 500, 4, 8, 120, 12)
 }
